@@ -381,3 +381,80 @@ func H_C03_qualified() {
 	verif.Assert(verif.Eq(got, want), "own-argument")
 	verif.Reach("end")
 }
+
+// H_C03_nullkeys: NULL and missing grouping cells form one group of their
+// own (in one- and two-column keys); they never join another key's group.
+func H_C03_nullkeys() {
+	n := verif.Choose("rows", maxRows(2, 3)+1)
+	two := verif.Choose("columns", 2)
+	verif.Opt("maporder", 1)
+	rows := make([]Map, n)
+	arr := make([]any, n)
+	cell := func(r Map, col string) {
+		kinds := 3
+		if col == "j" {
+			kinds = 2 // the second column: a number or NULL
+		}
+		switch verif.Choose(col+"null", kinds) {
+		case 0:
+			x := verif.F64(col)
+			verif.Assume(x == x)
+			r[col] = x
+		case 1:
+			r[col] = nil
+		}
+	}
+	for i := range rows {
+		r := Map{"v": float64(i + 1)}
+		cell(r, "k")
+		if two == 1 {
+			cell(r, "j")
+		}
+		rows[i], arr[i] = r, r
+	}
+	sql := "SELECT k, COUNT(*) AS c, SUM(v) AS s FROM t GROUP BY k"
+	if two == 1 {
+		sql = "SELECT k, j, COUNT(*) AS c, SUM(v) AS s FROM t GROUP BY k, j"
+	}
+	got, ok := runQuery(Map{"t": arr}, sql)
+	if !ok {
+		return
+	}
+	same := func(a, b any) bool {
+		if a == nil || b == nil {
+			return a == nil && b == nil
+		}
+		return f64of(a) == f64of(b)
+	}
+	type grp struct {
+		k, j any
+		c    int
+		s    float64
+	}
+	var groups []*grp
+	for _, r := range rows {
+		var g *grp
+		for _, c := range groups {
+			if same(c.k, r["k"]) && (two == 0 || same(c.j, r["j"])) {
+				g = c
+				break
+			}
+		}
+		if g == nil {
+			g = &grp{k: r["k"], j: r["j"]}
+			groups = append(groups, g)
+		}
+		g.c++
+		g.s += f64of(r["v"])
+	}
+	var want []any
+	for _, g := range groups {
+		m := Map{"k": g.k, "c": g.c, "s": g.s}
+		if two == 1 {
+			m["j"] = g.j
+		}
+		want = append(want, m)
+	}
+	verif.Assert(eqAnyOrder(got, want), "groups")
+	verif.Reach("end")
+}
